@@ -212,7 +212,7 @@ SPEC = {
     'harnesses': [
         {'name': 'hooks', 'fn': 'hooks', 'params': _P, 'call': _C,
          # quick: all 15x15 kind pairs x 3 shapes x repeat, hook presence symbolic on the base layer only
-         'bounds': {'quick': _B + ' and n <= 2 and h1 == 0 and not instance and k2 == 0',
+         'bounds': {'quick': _B + ' and n <= 2 and h1 == 0 and not instance and k2 == 0 and (shape != 3 or (h0 == 0 and k1 <= 4)) and (not pm or (shape == 1 and h0 == 0))',
                     'thorough': _B + ' and (n <= 2 or (h0 == 0 and h1 == 0 and not instance and not rep2))'},
          'slices': {'quick': ['shape == %d and k0 == %d' % (s, k) for s in range(4) for k in range(15)],
                     'thorough': ['shape == %d and k0 == %d and n == %d' % (s, k, n) for s in range(4) for k in range(15) for n in (1, 2, 3)]},
